@@ -104,6 +104,20 @@ func (p *packetIDLimiter) markUsedLocked(id packets.PacketID) {
 	p.lockedPid.Set(id, 1)
 }
 
+// waitAndMarkUsedLocked marks the given id as used once the window has room for it. It is used to retransmit
+// in-flight messages after a session was resumed without exceeding the (possibly smaller) new limit.
+// It returns false if the limiter was closed while waiting. The caller must hold the lock.
+func (p *packetIDLimiter) waitAndMarkUsedLocked(id packets.PacketID) bool {
+	for p.used >= p.limit && !p.exit {
+		p.cond.Wait()
+	}
+	if p.exit {
+		return false
+	}
+	p.markUsedLocked(id)
+	return true
+}
+
 func (p *packetIDLimiter) lock() {
 	p.cond.L.Lock()
 }
